@@ -17,7 +17,7 @@ PROPS = {
         "rule": ("one evaluation = one simulated run of generated per-task lock/trylock/unlock scripts (2-5 tasks, 1-3 PMutex/PSpinLock objects) under one seeded "
                  "schedule, preemptible before every atomic, fence, volatile access and pthread call of the library; 1 run in 100 first ages every lock by 2^8, 2^15 or 2^16 (+-1, +-2) uncontended acquisitions; distinct = distinct hash of "
                  "(per-lock acquisition order, event log); non-trivial = more than one context switch or one fired fault"),
-        "probes": ["lock.trylock_succeeded", "lock.trylock_busy", "lock.nested", "lock.aged"],
+        "probes": ["lock.trylock_succeeded", "lock.trylock_busy", "lock.nested", "lock.aged", "lock.native_lock_failed_reported", "lock.native_trylock_failed"],
         "components": {"real": ["pmutex-posix.c", "pspinlock-c11.c", "pspinlock-sync.c", "pspinlock-sim.c", "pmem.c", "pmain.c", "puthread.c (init only)"],
                        "stub": STUB_PTHREAD + ["execution of __atomic/__sync builtins and volatile accesses (own __tsan_* runtime)"]},
         "assumptions": COMMON_ASSUME + ["simulated pthread mutex states POSIX semantics", "happens-before from declared memory orders (c11) / x86 view of volatile+fence (sync)"],
@@ -59,7 +59,7 @@ PROPS = {
         "rule": ("one evaluation = one simulated run of a bounded buffer (1-4 producers, 1-4 consumers, capacity 1-3; signal per event on two condition variables or "
                  "broadcast on one), a gate (1-5 waiters, one broadcast) or a single parked waiter signalled once, under one seeded schedule with spurious wake-ups and "
                  "extra waiters released by signal as faults; distinct = distinct hash of (wake order, event log); non-trivial = more than one context switch or one fired fault"),
-        "probes": ["bb.consumer_waited", "bb.producer_waited", "cond.signal_with_waiter", "cond.broadcast_with_2_waiters", "cond.signal_to_parked_waiter",
+        "probes": ["bb.consumer_waited", "bb.producer_waited", "cond.signal_with_waiter", "cond.broadcast_with_2_waiters", "cond.signal_to_parked_waiter", "cond.mutex_taken_by_trylock", "cond.notify_without_mutex",
                    "cond.spurious_wakeup", "cond.signal_woke_two", "cond.notify_without_mutex"],
         "components": {"real": ["pcondvariable-posix.c", "pmutex-posix.c", "pmem.c", "pmain.c"], "stub": STUB_PTHREAD},
         "assumptions": COMMON_ASSUME + ["simulated pthread_cond_* / pthread_mutex_* state POSIX semantics"],
@@ -73,7 +73,7 @@ PROPS = {
                  "result writes, p_uthread_current, ref/unref of the own handle, set_priority, yield, exit(code)) interleaved with ref/unref/join, plus 0-2 threads the "
                  "library did not create, under one seeded schedule preemptible at every atomic, volatile access and pthread call; distinct = distinct event-log hash; "
                  "non-trivial = more than one context switch"),
-        "probes": ["thread.joined", "thread.started_before_create_returned", "thread.unref_before_child_started", "tls.key_deleted", "tls.replace_destroyed_old", "thread.foreign_current"],
+        "probes": ["thread.joined", "thread.started_before_create_returned", "thread.unref_before_child_started", "tls.key_deleted", "tls.replace_destroyed_old", "thread.foreign_current", "thread.native_id_reused", "tls.key_freed_while_value_held"],
         "components": {"real": ["puthread.c", "puthread-posix.c", "patomic-*.c and pspinlock-*.c of the variant", "pmem.c", "pstring.c", "pmain.c"], "stub": STUB_PTHREAD},
         "assumptions": COMMON_ASSUME + ["simulated pthread_create/join/exit/key_* state POSIX semantics (destructors run in key order, up to 4 rounds)",
                                         "handle release observed through the tracking allocator (the PUThread block returned by p_uthread_create)"],
@@ -88,7 +88,7 @@ PROPS = {
                  "take_ownership/free on two names (life-cycle calls serialised in 3 of 4 runs, acquire/release always concurrent; in 1 of 4 runs everything overlaps and only the interleaving-proof oracles apply), optionally with a SIGKILL of one process before/after its "
                  "k-th IPC system call and EINTR injection, followed by the documented clean-up (open, take ownership, free, create) from a fresh process; "
                  "distinct = distinct hash of (per-name operation order, event log); non-trivial = more than one context switch or one fired fault"),
-        "probes": ["sem.open_existing", "sem.create_on_existing", "sem.owner_free", "sem.take_ownership", "sem.wait_blocked", "sem.kill_happened",
+        "probes": ["sem.open_existing", "sem.create_on_existing", "sem.owner_free", "sem.take_ownership", "sem.wait_blocked", "sem.kill_happened", "sem.name_space_scanned", "sem.release_at_maximum", "sem.concurrent_created",
                    "sem.same_process_reopen", "sem.acquire_cancelled_at_quiescence", "eintr.sem_wait", "sem.concurrent_created", "sem.new_failed_under_overlap"],
         "components": {"real": ["psemaphore-posix.c", "pipc.c", "pcryptohash.c + pcryptohash-sha1.c (name hashing)", "perror.c", "pmem.c", "pmain.c"], "stub": STUB_KERNEL + STUB_PTHREAD},
         "assumptions": COMMON_ASSUME + ["POSIX semaphore name space modelled with Linux/glibc semantics (same name in one process = one reference-counted sem_t, unlink keeps open objects alive)",
@@ -122,7 +122,7 @@ PROPS = {
                  "exactly used, free+1, random} compared with a FIFO byte-queue model after every call, or concurrent histories (2-4 tasks) checked by linearizability search; "
                  "flavour A: ASan-instrumented library, exact-size caller buffers, poisoned segment tail, guard pages; flavour T: race detector on header words and data bytes; "
                  "distinct = distinct hash of (operation order, event log); non-trivial = more than one context switch or one fired fault"),
-        "probes": ["buf.full_after_write", "buf.empty_after_read", "buf.write_exact_free", "lin.concurrent_history_ok", "sem.wait_blocked"],
+        "probes": ["buf.full_after_write", "buf.empty_after_read", "buf.write_exact_free", "lin.concurrent_history_ok", "sem.wait_blocked", "buf.opened_while_full", "buf.opened_while_non_empty"],
         "components": {"real": ["pshmbuffer.c", "pshm-posix.c", "psemaphore-posix.c", "pipc.c", "pcryptohash-sha1.c", "perror.c", "pmem.c"], "stub": STUB_KERNEL + STUB_PTHREAD},
         "assumptions": COMMON_ASSUME + ["len == 0 is outside the statement (documented invalid argument): results 0 and -1 accepted, no state change",
                                         "linearizability search capped at 40 calls and 6e5 nodes (beyond: inconclusive, counted)"],
@@ -137,7 +137,7 @@ PROPS = {
                  "buffers of 1 B-8 KiB, socket buffers 16 B-64 KiB, blocking and non-blocking ends mixed, optional early quit of the receiver), a request / half-close / response / close exchange with an optionally slow reader, or UDP (2-3 bound sockets "
                  "exchanging numbered datagrams of 4-2000 B, short receive buffers) with EINTR, EAGAIN-after-poll, short send/recv, delivery delay, late timers and "
                  "(UDP) loss/duplication/reordering injected into the simulated system calls; distinct = distinct event-log hash; non-trivial = more than one context switch or one fired fault"),
-        "probes": ["data.partial_send_reported", "data.nonblocking_send_waited", "data.nonblocking_receive_waited", "data.eof_seen", "data.receiver_quit_early",
+        "probes": ["data.partial_send_reported", "data.nonblocking_send_waited", "data.nonblocking_receive_waited", "data.eof_seen", "data.receiver_quit_early", "data.empty_datagram_sent", "data.empty_datagram_received",
                    "data.send_error_after_peer_gone", "data.nonblocking_connect", "data.datagram_received", "data.stream_1k_plus", "data.half_close", "data.reqresp_done", "sock.short_send", "sock.eagain_after_poll",
                    "sock.send_buffer_full", "sock.epipe", "sock.dgram_truncated", "eintr.send", "eintr.recv", "eintr.poll", "eintr.accept", "eintr.recvfrom", "eintr.sendto",
                    "eintr.connect_before_start", "eintr.connect_after_start"],
@@ -156,7 +156,7 @@ PROPS = {
                  "connect to a listener / to nobody / to a listener with a full backlog, accept, send, receive, send_to, receive_from, shutdown, io_condition_wait, close, "
                  "calls after close, close again, free; every call is classified by the socket state machine model; distinct = distinct event-log hash; "
                  "non-trivial = more than one context switch or one fired fault"),
-        "probes": ["state.timed_out_on_time", "state.long_timeout_cost_nothing", "state.nonblocking_would_block", "state.blocking_waited_for_peer", "state.io_on_closed",
+        "probes": ["state.timed_out_on_time", "state.long_timeout_cost_nothing", "state.nonblocking_would_block", "state.blocking_waited_for_peer", "state.io_on_closed", "state.failed_listen", "state.failed_keepalive", "state.failed_bind", "state.connected_without_asking", "state.send_path_full",
                    "state.close_idempotent", "state.send_path_full", "state.connect_in_progress", "state.connect_refused", "state.connect_stalled_timed_out", "state.accepted", "state.backlog_ignored_after_listen"],
         "components": {"real": ["psocket.c", "psocketaddress.c", "perror.c", "psysclose-unix.c", "pmem.c", "pmain.c"], "stub": STUB_NET + STUB_PTHREAD},
         "assumptions": COMMON_ASSUME + ["time-outs are compared on the simulated clock (exact); timers may fire late, never early",
@@ -173,7 +173,7 @@ PROPS = {
                  "late datagram) under one injection plan: EINTR at the k-th invocation (k = 1..6, thorough 1..12) of one interruptible system call, a pair of such injections, or a "
                  "signal storm with probability 0.05-0.9 per opportunity; outcome compared with the undisturbed one on the simulated clock; distinct = distinct event-log hash; "
                  "non-trivial = at least one fired injection or more than one context switch"),
-        "probes": ["eintr.planned", "eintr.some_fired", "sleep.interrupted", "sleep.interrupted_twice", "sleep.long_sleep_cost_nothing", "eintr.sem_wait", "eintr.poll", "eintr.accept",
+        "probes": ["eintr.planned", "eintr.some_fired", "sleep.interrupted", "sleep.interrupted_twice", "sleep.long_sleep_cost_nothing", "eintr.sem_wait", "eintr.poll", "eintr.accept", "eintr.second_handle_of_existing_segment",
                    "eintr.recv", "eintr.send", "eintr.recvfrom", "eintr.sendto", "eintr.connect_before_start", "eintr.connect_after_start"],
         "components": {"real": ["puthread.c (sleep)", "psemaphore-posix.c", "pshm-posix.c", "psocket.c", "perror.c", "pmem.c"], "stub": STUB_KERNEL + STUB_NET + STUB_PTHREAD},
         "assumptions": COMMON_ASSUME + ["a handled signal is modelled by its only observable effect on a blocked call: EINTR (or, for clock_nanosleep, the returned error number and the remaining time)",
